@@ -262,4 +262,108 @@ theorem parseStd_last_flag {opts : List Opt} {c : Char} {i : Nat} (k : Nat) (nex
   unfold parseStd
   simp only [hf, ht', List.isEmpty_nil, Bool.false_eq_true, ↓reduceIte]
 
+/-! ## a whole config file -/
+
+theorem fileLinesAux_skip : ∀ (l rest acc : Str), '\n' ∉ l →
+    fileLinesAux (l ++ '\n' :: rest) acc = (acc.reverse ++ l ++ ['\n']) :: fileLinesAux rest [] := by
+  intro l
+  induction l with
+  | nil => intro rest acc _; simp [fileLinesAux]
+  | cons c l ih =>
+    intro rest acc h
+    have hc : (c == '\n') = false := by
+      cases hq : c == '\n' with
+      | false => rfl
+      | true => exact absurd (by simp [show c = '\n' by simpa using hq]) h
+    have hl : '\n' ∉ l := fun e => h (List.mem_cons_of_mem _ e)
+    simp only [List.cons_append, fileLinesAux, hc, Bool.false_eq_true, ↓reduceIte]
+    rw [ih rest (c :: acc) hl]
+    simp
+
+/-- a file made of newline-terminated lines is read back line by line -/
+theorem fileLines_join : ∀ (lines : List Str), (∀ l ∈ lines, '\n' ∉ l) →
+    fileLines (lines.flatMap (fun l => l ++ ['\n'])) = lines.map (fun l => l ++ ['\n']) := by
+  intro lines
+  induction lines with
+  | nil => intro _; rfl
+  | cons l ls ih =>
+    intro h
+    have hl := h l List.mem_cons_self
+    have := ih (fun x hx => h x (List.mem_cons_of_mem _ hx))
+    unfold fileLines at this ⊢
+    simp only [List.flatMap_cons, List.map_cons, List.append_assoc, List.singleton_append]
+    rw [fileLinesAux_skip l _ [] hl, this]
+    simp
+
+/-- one intended setting of a config file: option index, its name, and the argument (if the option takes one) -/
+structure CfgEntry where
+  i : Nat
+  name : Str
+  arg : Option Str
+
+def CfgEntry.line (e : CfgEntry) : Str :=
+  match e.arg with
+  | some a => e.name ++ ' ' :: a
+  | none => e.name
+
+/-- the entry is spelled correctly for the table: exact option name, plain words, an argument iff the option takes one -/
+structure CfgEntry.Good (opts : List Opt) (e : CfgEntry) : Prop where
+  name_plain : Plain wsDelim e.name
+  dash : e.name.head? = some '-'
+  resolves : optidxExactly opts e.name = some e.i
+  arg_ok : match e.arg with
+    | some a => Plain wsDelim a ∧ a.head? ≠ some '"' ∧ (opts.getD e.i default).type ≠ 0
+    | none => (opts.getD e.i default).type = 0
+
+theorem plain_no_newline {w : Str} (h : Plain wsDelim w) : '\n' ∉ w := by
+  intro hm
+  have := h.2 '\n' hm
+  simp [wsDelim] at this
+
+theorem cfgItem_entry {opts : List Opt} {e : CfgEntry} (h : e.Good opts) :
+    cfgItem opts (e.line ++ ['\n']) = some (.set e.i e.arg) := by
+  obtain ⟨hn, hd, hr, ha⟩ := h
+  unfold CfgEntry.line
+  cases harg : e.arg with
+  | none =>
+    simp only [harg] at ha
+    exact cfgItem_flag hn hd hr ha
+  | some a =>
+    simp only [harg] at ha
+    have := cfgItem_name_arg hn ha.1 ha.2.1 hd hr ha.2.2
+    simpa [List.append_assoc] using this
+
+theorem entry_line_no_newline {opts : List Opt} {e : CfgEntry} (h : e.Good opts) : '\n' ∉ e.line := by
+  obtain ⟨hn, _, _, ha⟩ := h
+  unfold CfgEntry.line
+  cases harg : e.arg with
+  | none => exact plain_no_newline hn
+  | some a =>
+    simp only [harg] at ha
+    intro hm
+    rcases List.mem_append.mp hm with hm | hm
+    · exact plain_no_newline hn hm
+    · rcases List.mem_cons.mp hm with hm | hm
+      · cases hm
+      · exact plain_no_newline ha.1 hm
+
+/-- **a config file written as one correctly spelled setting per line is parsed into exactly those settings, in order** -/
+theorem cfgfile_items (opts : List Opt) (es : List CfgEntry) (h : ∀ e ∈ es, e.Good opts) :
+    (fileLines (es.flatMap (fun e => e.line ++ ['\n']))).filterMap (cfgItem opts) = es.map (fun e => CfgItem.set e.i e.arg) := by
+  have h1 : es.flatMap (fun e => e.line ++ ['\n']) = (es.map CfgEntry.line).flatMap (fun l => l ++ ['\n']) := by
+    simp [List.flatMap_map]
+  rw [h1, fileLines_join _ (by
+    intro l hl
+    obtain ⟨e, he, rfl⟩ := List.mem_map.mp hl
+    exact entry_line_no_newline (h e he))]
+  rw [List.map_map]
+  induction es with
+  | nil => rfl
+  | cons e es ih =>
+    simp only [List.map_cons, List.filterMap_cons, Function.comp]
+    rw [cfgItem_entry (h e List.mem_cons_self)]
+    simp only
+    rw [ih (fun x hx => h x (List.mem_cons_of_mem _ hx))
+      (by simp [List.flatMap_map])]
+
 end EaselModel.Getopts
